@@ -475,6 +475,23 @@ def part_construct(ctx, shard):
             judge("unyt_array(ndarray,name=)", unyt_array(src, "m", name="x"), data, src, True, m)
             judge("unyt_array(ndarray,bypass_validation)", unyt_array(src, m, bypass_validation=True), data, src, True, m)
             judge("unyt_array(ndarray,registry=)", unyt_array(src, "m", registry=m.registry), data, src, True, m)
+            # inputs that are themselves views with unusual memory layout: still a view of the caller's buffer
+            big = np.zeros(tuple(2 * n for n in shape) if shape else (), dtype=data.dtype)
+            layouts = {
+                "reversed": lambda: src[::-1],
+                "transposed": lambda: src.T,
+                "fortran-order": lambda: np.asfortranarray(src),
+                "strided-slice-of-bigger": lambda: big[tuple(slice(None, None, 2) for _ in shape)],
+                "last-axis-reversed": lambda: src[..., ::-1],
+            }
+            for lname, mk in layouts.items():
+                v = mk()
+                if v.size == 0:
+                    continue
+                if lname == "strided-slice-of-bigger":
+                    v[...] = data
+                for cname, ctor in (("unyt_array", lambda x: unyt_array(x, "m")), ("unyt_array-Unit", lambda x: unyt_array(x, m)), ("ndarray-view-then-units", lambda x: unyt_array(x, "m", dtype=x.dtype))):
+                    judge(f"{cname}({lname}-ndarray)", ctor(v), np.array(v, copy=True), v, True, m)
             judge("unyt_array(list)", unyt_array(data.tolist(), "m"), np.asarray(data.tolist()), None, None, m)
             inner = unyt_array(src, "m")
             judge("unyt_array(unyt_array)", unyt_array(inner), data, None, None, m)
@@ -608,6 +625,14 @@ def part_results_misc(ctx, shard):
                 ("quantity-ctor-bypass", lambda: unyt_quantity(np.asarray(x.d), x.units, bypass_validation=True)),
                 ("quantity-ctor-bypass-from-unyt", lambda: unyt_quantity(x, x.units, bypass_validation=True)),
                 ("quantity-ctor", lambda: unyt_quantity(np.asarray(x.d), str(x.units))), ("quantity-ctor-from-unyt", lambda: unyt_quantity(x)),
+                ("unorm", lambda: unyt.unorm(x) if sh != () else x), ("unorm-axis0", lambda: unyt.unorm(x, axis=0) if sh not in ((),) else x),
+                ("unorm-axis-1", lambda: unyt.unorm(x, axis=-1) if sh != () else x), ("unorm-all-axes", lambda: unyt.unorm(x, axis=tuple(range(len(sh)))) if len(sh) == 2 else x),
+                ("unorm-keepdims", lambda: unyt.unorm(x, axis=0, keepdims=True) if sh != () else x), ("udot", lambda: unyt.udot(x, x) if len(sh) == 1 else x),
+                ("ucross", lambda: unyt.ucross(x, x) if sh == (3,) else x), ("np.linalg.norm", lambda: np.linalg.norm(x) if sh != () else x),
+                ("np.linalg.norm-axis0", lambda: np.linalg.norm(x, axis=0) if len(sh) >= 1 else x), ("np.trace", lambda: np.trace(x) if len(sh) == 2 else x),
+                ("np.vdot", lambda: np.vdot(x, x) if sh != () else x), ("np.inner", lambda: np.inner(x, x) if len(sh) == 1 else x), ("np.tensordot", lambda: np.tensordot(x, x, axes=len(sh)) if sh != () else x),
+                ("np.sum-all-axes", lambda: np.sum(x, axis=tuple(range(len(sh)))) if sh != () else x), ("np.max-axis0", lambda: np.max(x, axis=0) if sh not in ((), (0,)) else x),
+                ("np.median-axis0", lambda: np.median(x, axis=0) if sh not in ((), (0,)) else x), ("np.mean-axis-1", lambda: np.mean(x, axis=-1) if sh not in ((), (0,)) else x),
                 ("to", lambda: x.to(x.units)), ("in_base", lambda: x.in_base()), ("to_equivalent", lambda: x.to_equivalent(x.units, "spectral") if False else x),
             ]
             _run_calls(ctx, "misc", unit, (sh,), calls)
